@@ -126,6 +126,11 @@ def gen(rng):
 
 
 def main():
+    if sys.argv[1] == 'replay':
+        spec = json.loads(sys.argv[2])
+        v = check(spec, random.Random(0))
+        print(json.dumps({'cases': 1, 'violations': v}, default=str))
+        return
     seed, count = int(sys.argv[2]), int(sys.argv[3])
     rng = random.Random(seed)
     out = {'cases': 0, 'nontrivial': 0, 'violations': [], 'samples': []}
